@@ -24,6 +24,7 @@ type C04Cfg struct {
 	Late          int       `json:"late"` // index into IDs of a node that starts late (-1: none)
 	Topic         string    `json:"topic"`
 	Signers       []uint16  `json:"signers,omitempty"`       // explicit signer set (default: drawn)
+	NonFIFO       bool      `json:"nonFifo,omitempty"`       // links may reorder their messages
 	CallTimeoutMs int       `json:"callTimeoutMs,omitempty"` // context deadline of every call (0: none)
 }
 
@@ -55,6 +56,9 @@ func genC04(seed uint64, tier string) C04Cfg {
 	if r.Bool(0.5) {
 		c.Late = r.Intn(n)
 	}
+	// the statement quantifies over every interleaving of deliveries: a quarter of the runs also let a link
+	// reorder its own messages (an application may dispatch each incoming message on its own goroutine)
+	c.NonFIFO = r.Bool(0.25)
 	return c
 }
 
@@ -172,6 +176,7 @@ func runSessionWith(spec RunSpec, cfg C04Cfg, invokers []uint16, inv string, res
 func runSessionX(spec RunSpec, cfg C04Cfg, invokers []uint16, inv string, res *RunResult, top *RunResult, setup func(d *Deployment)) (*SessOut, *netsim.ScriptSched) {
 	w := netsim.NewWorld(spec.Seed)
 	w.Serial = cfg.Serial
+	w.NonFIFO = cfg.NonFIFO
 	trace(spec, top.Cfg, w)
 	d := NewDeployment(w, cfg.Deploy)
 	if setup != nil {
